@@ -13,7 +13,34 @@
         }
     }
 
+    /// core's identity conversion `impl<T> From<T> for T`, for util::BigInt
+    pub broadcast axiom fn axiom_bigint_into_refl_obeys()
+        ensures <BigInt as IntoSpec<BigInt>>::obeys_into_spec();
+    pub broadcast axiom fn axiom_bigint_into_refl(x: BigInt)
+        ensures #[trigger] <BigInt as IntoSpec<BigInt>>::into_spec(x) == x;
     impl Clone for BigInt {
         #[verifier::external_body]
         fn clone(&self) -> (r: BigInt) ensures r == *self { unimplemented!() }
+    }
+
+    // ---- contracts of the operator impls on &util::BigInt (checked by Verus against the impl bodies)
+    impl<'a> NegSpecImpl for &'a BigInt {
+        open spec fn obeys_neg_spec() -> bool { true }
+        open spec fn neg_req(self) -> bool { true }
+        open spec fn neg_spec(self) -> BigInt { BigInt { bigint: num_bigint::mk(-self.val()), size: None } }
+    }
+    impl<'a> BitAndSpecImpl<&'a BigInt> for &'a BigInt {
+        open spec fn obeys_bitand_spec() -> bool { true }
+        open spec fn bitand_req(self, rhs: &'a BigInt) -> bool { true }
+        open spec fn bitand_spec(self, rhs: &'a BigInt) -> BigInt { BigInt { bigint: num_bigint::mk(num_bigint::bitand_spec(self.val(), rhs.val())), size: None } }
+    }
+    impl<'a> BitOrSpecImpl<&'a BigInt> for &'a BigInt {
+        open spec fn obeys_bitor_spec() -> bool { true }
+        open spec fn bitor_req(self, rhs: &'a BigInt) -> bool { true }
+        open spec fn bitor_spec(self, rhs: &'a BigInt) -> BigInt { BigInt { bigint: num_bigint::mk(num_bigint::bitor_spec(self.val(), rhs.val())), size: None } }
+    }
+    impl<'a> BitXorSpecImpl<&'a BigInt> for &'a BigInt {
+        open spec fn obeys_bitxor_spec() -> bool { true }
+        open spec fn bitxor_req(self, rhs: &'a BigInt) -> bool { true }
+        open spec fn bitxor_spec(self, rhs: &'a BigInt) -> BigInt { BigInt { bigint: num_bigint::mk(num_bigint::bitxor_spec(self.val(), rhs.val())), size: None } }
     }
